@@ -17,3 +17,69 @@ package variable
 //@   requires wfVal(v)
 //@   carveout "D15": isVNum(absval(v)) ==> fitsInt(absval(v).n)
 //@   ensures "display": res == display(absval(v))
+//
+// ---- in_memory_storer.go: the default storer against its own abstraction (C03, C07) ---------------------
+//
+// get(name) is the value the storer reports for a name; wf() keeps every name in at most one map, so
+// the storer never reports one name under two types.
+//
+//@ pure func (s *InMemoryStorer) get(name string) Val {
+//@     return name in s.numbers ? VNum(s.numbers[name]) : name in s.booleans ? VBool(s.booleans[name]) :
+//@            name in s.strings ? VStr(s.strings[name]) : VNone }
+//@ pred (s *InMemoryStorer) wf() {
+//@     s != nil && s.numbers != nil && s.booleans != nil && s.strings != nil &&
+//@     (forall n string :: {n in s.numbers} {n in s.booleans} {n in s.strings}
+//@         !(n in s.numbers && n in s.booleans) && !(n in s.numbers && n in s.strings) && !(n in s.booleans && n in s.strings)) }
+//
+//@ func NewInMemoryStorer() (res *InMemoryStorer)
+//@   ensures res.wf() && fresh(res) && (forall n string :: {res.get(n)} res.get(n) == VNone)
+//
+//@ func (storer *InMemoryStorer) Clear()
+//@   requires storer != nil
+//@   modifies storer.numbers, storer.booleans, storer.strings
+//@   ensures "empty": storer.wf() && (forall n string :: {storer.get(n)} storer.get(n) == VNone)
+//@   ensures fresh(storer.numbers) && fresh(storer.booleans) && fresh(storer.strings)
+//
+//@ func (storer *InMemoryStorer) GetValue(variableName string) (v *Value, ok bool)
+//@   requires storer.wf()
+//@   ensures "reports-get": ok == (storer.get(variableName) != VNone) && (ok ==> absval(v) == storer.get(variableName) && fresh(v)) && (!ok ==> v == nil)
+//
+//@ func (storer *InMemoryStorer) Contains(variableName string) (res bool)
+//@   requires storer.wf()
+//@   ensures "contains": res == (storer.get(variableName) != VNone)
+//
+//@ func (storer *InMemoryStorer) SetNumberValue(variableName string, value float64)
+//@   requires storer.wf()
+//@   requires "absent-or-same-type": storer.get(variableName) == VNone || isVNum(storer.get(variableName))
+//@   modifies mapcontent(storer.numbers)
+//@   ensures "set": storer.wf() && (forall n string :: {storer.get(n)} storer.get(n) == (n == variableName ? VNum(value) : old(storer.get(n))))
+//
+//@ func (storer *InMemoryStorer) SetBooleanValue(variableName string, value bool)
+//@   requires storer.wf()
+//@   requires "absent-or-same-type": storer.get(variableName) == VNone || isVBool(storer.get(variableName))
+//@   modifies mapcontent(storer.booleans)
+//@   ensures "set": storer.wf() && (forall n string :: {storer.get(n)} storer.get(n) == (n == variableName ? VBool(value) : old(storer.get(n))))
+//
+//@ func (storer *InMemoryStorer) SetStringValue(variableName string, value string)
+//@   requires storer.wf()
+//@   requires "absent-or-same-type": storer.get(variableName) == VNone || isVStr(storer.get(variableName))
+//@   modifies mapcontent(storer.strings)
+//@   ensures "set": storer.wf() && (forall n string :: {storer.get(n)} storer.get(n) == (n == variableName ? VStr(value) : old(storer.get(n))))
+//
+//@ func (storer *InMemoryStorer) GetValues() (values map[string]Value)
+//@   requires storer.wf()
+//@   ensures "fresh-map": values != nil && fresh(values)
+//@   ensures "content": (forall n string :: {n in values} (n in values) == (storer.get(n) != VNone)) &&
+//@                      (forall n string :: {values[n]} n in values ==> absvalOf(values[n]) == storer.get(n))
+//@   loop 0: invariant values != nil && fresh(values) &&
+//@           (forall n string :: {n in values} (n in values) == (n in seen)) &&
+//@           (forall n string :: {n in seen} n in seen ==> n in storer.booleans) &&
+//@           (forall n string :: {values[n]} n in values ==> absvalOf(values[n]) == storer.get(n))
+//@   loop 1: invariant values != nil && fresh(values) &&
+//@           (forall n string :: {n in values} (n in values) == (n in storer.booleans || n in seen)) &&
+//@           (forall n string :: {n in seen} n in seen ==> n in storer.numbers) &&
+//@           (forall n string :: {values[n]} n in values ==> absvalOf(values[n]) == storer.get(n))
+//@   loop 2: invariant values != nil && fresh(values) &&
+//@           (forall n string :: {n in values} (n in values) == (n in storer.booleans || n in storer.numbers || n in seen)) &&
+//@           (forall n string :: {n in seen} n in seen ==> n in storer.strings) &&
+//@           (forall n string :: {values[n]} n in values ==> absvalOf(values[n]) == storer.get(n))
